@@ -123,7 +123,6 @@ fn moduli(rng: &mut StdRng, thorough: bool) -> Vec<(String, Uint)> {
         ("p4w".to_string(), (Uint::ONE << 255) - Uint::from(19u64)),          // 2^255 - 19
         ("p8w".to_string(), u("801643889160962459503567529599420993581193510766215918385643775834136080985009029500140562854896402036056836567241446409601881132259487327233447")),
         ("p1w61".to_string(), (Uint::ONE << 61) - Uint::ONE),
-        ("p1w31".to_string(), (Uint::ONE << 31) - Uint::ONE), // smallest: carries the 1024-bit scalars
     ];
     let sizes: &[(u32, &str)] = if thorough {
         &[(64, "c1w"), (128, "c2w"), (192, "c3w"), (256, "c4w"), (320, "c5w"), (384, "c6w"), (448, "c7w"), (500, "c8w"), (100, "c2ws")]
@@ -391,6 +390,22 @@ pub fn run(args: &Args) -> i32 {
         let r = guard(|| json!({"chain": eh::make_addition_chain(*k).iter().map(|&x| x as i64).collect::<Vec<_>>()}));
         out.ev(merge(json!({"op": "chain64", "case": case, "cls": cls, "k": du(*k), "kd": k.to_string()}), r));
     }
+    // many more random scalars for the chain builders alone (cheap for TLC: integer decoding only), so that
+    // every window pattern is met at many positions
+    for i in 0..(if thorough { 4000 } else { 800 }) {
+        let bits = 4 + (i % 61) as u32;
+        let k = rand_bits(&mut rng, bits).digits()[0] | if i % 2 == 0 { 1u64 << 63 } else { 0 };
+        let case = format!("k64/{}", k);
+        let r = guard(|| json!({"chain": eh::make_addition_chain(k).iter().map(|&x| x as i64).collect::<Vec<_>>()}));
+        out.ev(merge(json!({"op": "chain64", "case": case, "cls": "random", "k": du(k), "kd": k.to_string()}), r));
+    }
+    for i in 0..(if thorough { 1500 } else { 300 }) {
+        let bits = if i % 3 == 0 { 1024 } else { 65 + (i * 37 % 960) as u32 };
+        let k = rand_bits(&mut rng, bits);
+        let case = format!("k1024/r{}", i);
+        let r = guard(|| json!({"chain": eh::make_addition_chain_long(&k).iter().map(|&x| x as i64).collect::<Vec<_>>()}));
+        out.ev(merge(json!({"op": "chain1024", "case": case, "cls": "random", "k": dn(&k), "kd": k.to_string()}), r));
+    }
     let s1024 = scalars1024(&mut rng, thorough);
     for (cls, k) in s1024.iter().filter(|(_, k)| !k.is_zero()) {
         let case = format!("k1024/{}", k);
@@ -448,7 +463,7 @@ pub fn run(args: &Args) -> i32 {
     let ncur = small_curves.len() + big_curves.len();
     for (idx, (cls, k)) in s64.iter().enumerate() {
         // big moduli only for a handful of cheap (small) scalars
-        let one_w: Vec<&Cv> = small_curves.iter().filter(|c| c.n.bits() <= 64 && c.n.bits() > 32).collect();
+        let one_w: Vec<&Cv> = small_curves.iter().filter(|c| c.n.bits() <= 64).collect();
         let two_w: Vec<&Cv> = small_curves.iter().filter(|c| c.n.bits() > 64).collect();
         let cv: &Cv = if *k < 64 && idx % 5 == 0 && !big_curves.is_empty() {
             &big_curves[idx % big_curves.len()]
@@ -477,19 +492,48 @@ pub fn run(args: &Args) -> i32 {
         if idx % 4 == 0 || cls == "longchain" {
             out.ev(merge(b("dbladd64"), guard(|| json!({"r": j3m(zn, &eh::coords(&c.scalar64_mul_dbladd(*k, &eh::point(&pm))))}))));
         }
-        if cv.twisted && cv.n.bits() <= 128 {
+        // the 128-bit implementation: on every twisted curve that fits, and for the edge scalars (0, 1, the
+        // top of the range, the longest chains) on a twisted curve in any case
+        let special = *k < 3 || cls == "top" || cls == "longchain" || cls == "ones";
+        let tw_small: Vec<&Cv> = small_curves.iter().filter(|c| c.twisted).collect();
+        let cv8: Option<&Cv> = if cv.twisted && cv.n.bits() <= 128 {
+            Some(cv)
+        } else if special && !tw_small.is_empty() {
+            Some(tw_small[idx % tw_small.len()])
+        } else {
+            None
+        };
+        if let Some(cv) = cv8 {
+            let p = cv.mul(j);
+            let pm = to_m(&cv.zn, &p);
+            let case = format!("{}/{}*[{}]G", cv.name, k, j);
+            let mut v = cv.base("mul128", &case);
+            v["p"] = j3(&p);
+            v["k"] = du(*k);
+            v["kd"] = json!(k.to_string());
+            v["cls"] = json!(cls);
+            v["j"] = json!(j);
+            let (c, zn) = (&cv.c, &cv.zn);
             let n128 = cv.n.digits()[0] as u128 | (cv.n.digits()[1] as u128) << 64;
             let r = guard(|| {
                 let c128 = h128::from_point(n128, &to128(&eh::coords(c.gen())));
                 let r128 = h128::scalar64_mul(&c128, *k, &to128(&pm));
-                let r512 = eh::coords(&c.scalar64_chainmul(*k, &eh::point(&pm)));
-                json!({"r": j3r(zn, &r128), "r512": j3m(zn, &r512)})
+                json!({"r": j3r(zn, &r128)})
             });
-            out.ev(merge(b("mul128"), r));
+            // the 512-bit result for the agreement clause is computed separately so that a panic of one
+            // implementation is not blamed on the other
+            let r5 = guard(|| json!({"r512": j3m(zn, &eh::coords(&c.scalar64_chainmul(*k, &eh::point(&pm))))}));
+            let v = merge(v, r);
+            out.ev(match r5 {
+                Ok(x) => merge(v, Ok(x)),
+                Err(_) => v,
+            });
         }
     }
     // 1024-bit scalars on one-word moduli
-    let mut one_word: Vec<&Cv> = small_curves.iter().filter(|c| c.n.bits() <= 32).collect();
+    // 61-bit prime modulus: small enough for TLC, large enough that a collision [prefix]P = +-[i]P inside the
+    // non-unified chain steps (probability ~ 64/ord(P) per step) is out of reach
+    let mut one_word: Vec<&Cv> = small_curves.iter().filter(|c| c.n.bits() == 61).collect();
     if one_word.is_empty() {
         one_word = small_curves.iter().filter(|c| c.n.bits() <= 64).collect();
     }
